@@ -190,7 +190,11 @@ def materialize(g, rep):
 
 
 # ---------------------------------------------------------------- reference
-def exact_double_mgh(G, H, budget=300000):
+def exact_double_mgh(G, H, budget=None):
+    if budget is None:
+        # measured: 98 % of the generated 9-10-vertex pairs finish within 30 000 nodes, the rest needs > 300 000
+        # (9 s each, more than the other 98 % together); those few fall back to the size-free clauses
+        budget = 300000 if max(G["n"], H["n"]) <= 8 else 40000
     DX = ref_mgh.distance_matrix(G["n"], G["edges"])
     DY = ref_mgh.distance_matrix(H["n"], H["edges"])
     if np.isinf(DX).any() or np.isinf(DY).any():
